@@ -11,7 +11,10 @@
 //
 //	int -> Z; byte -> byte; bool -> bool; string, []byte -> bytes; error -> bool ("is
 //	not nil"); struct types -> the Coq type of Config.Structs; *T (only as the result of
-//	new(T) held in one local) -> T; several results -> a tuple.
+//	new(T) held in one local) -> T; several results -> a tuple; rune (int32) -> Z
+//	(constants and comparisons only, no arithmetic); []T -> list T; map[string]T that is
+//	only read (m[k], passed on) -> the total function bytes -> T (absent key = zero
+//	value); package-level variables named in Config.Vars -> the Coq term given there.
 //
 //	A function f becomes  Definition <prefix>f [fuel] params : res R.  Expressions that
 //	cannot panic become plain terms; index and slice expressions, calls of translated
@@ -30,7 +33,14 @@
 //	<assigned vars> {struct n} : res (outcome S L R): n is the iteration bound of this
 //	loop execution (OutOfFuel at 0), fuel the bound handed unchanged to every loop and
 //	call inside; the function starts each of its loops with n = fuel.  range loops over
-//	a slice become structural recursion on the list (no iteration bound needed).
+//	a slice become structural recursion on the list (no iteration bound needed); range
+//	over a string is range over the list of its (byte offset, rune) pairs (GoSemExt.go_runes,
+//	Go's UTF-8 decoding), range over an int n over the list 0 .. n-1.
+//
+//	A function that calls itself becomes  Fixpoint <prefix>f (fuel : nat) params
+//	{struct fuel}: OutOfFuel at 0, otherwise the body with fuel-1 for everything inside
+//	(the recursive calls included), so fuel bounds the depth of the recursion.  Mutual
+//	recursion and a recursive call inside a loop are not supported.
 //
 // Soundness conditions of the value semantics of slices, checked per function: element
 // stores and copy only into a local made by make and used linearly; append only as
@@ -51,7 +61,8 @@ import (
 	"strings"
 )
 
-// LibFunc is the denotation of a library function "importpath.Name".
+// LibFunc is the denotation of a library function "importpath.Name" or of a method
+// "(*importpath.T).Name" / "(importpath.T).Name" (the receiver is the first argument).
 type LibFunc struct {
 	Coq     string // Coq function applied to the translated arguments, in Go's order
 	Monadic bool   // the Coq function returns res T (it can panic)
@@ -75,6 +86,11 @@ type Config struct {
 	Stubs   map[string]string  // import path -> Go source declaring exactly the supported API of that package
 	Lib     map[string]LibFunc // "importpath.Name" -> denotation
 	Structs map[string]Struct  // "importpath.Name" -> denotation
+	// Vars: package-level variables of the translated package whose value is given by the
+	// table instead of by translating an initialiser (a map filled by init(), a compiled
+	// regexp): name -> Coq term.  That the term is the variable's value whenever a
+	// translated function runs is part of the table's claim.
+	Vars map[string]string
 }
 
 // Unsupported reports a construct outside the supported subset.
@@ -106,18 +122,19 @@ type Result struct {
 }
 
 type translator struct {
-	cfg      *Config
-	fset     *token.FileSet
-	files    []*ast.File
-	pkg      *types.Package
-	info     *types.Info
-	terrs    []types.Error
-	decls    map[string]*ast.FuncDecl
-	order    []string
-	needFuel map[string]bool
-	pkgVars  map[types.Object]string
-	pkgVarTx []string
-	out      strings.Builder
+	cfg       *Config
+	fset      *token.FileSet
+	files     []*ast.File
+	pkg       *types.Package
+	info      *types.Info
+	terrs     []types.Error
+	decls     map[string]*ast.FuncDecl
+	order     []string
+	needFuel  map[string]bool
+	recursive map[string]bool
+	pkgVars   map[types.Object]string
+	pkgVarTx  []string
+	out       strings.Builder
 }
 
 type stubImporter struct {
@@ -159,7 +176,7 @@ func (im *stubImporter) Import(path string) (*types.Package, error) {
 // Translate translates cfg.Funcs of the package made of files.
 func Translate(fset *token.FileSet, files []*ast.File, pkgPath string, cfg *Config) (res *Result, err error) {
 	t := &translator{cfg: cfg, fset: fset, files: files, decls: map[string]*ast.FuncDecl{},
-		needFuel: map[string]bool{}, pkgVars: map[types.Object]string{}}
+		needFuel: map[string]bool{}, recursive: map[string]bool{}, pkgVars: map[types.Object]string{}}
 	defer func() {
 		if r := recover(); r != nil {
 			if u, ok := r.(*Unsupported); ok {
@@ -252,28 +269,58 @@ func (t *translator) callee(call *ast.CallExpr) string {
 	return fn.Name()
 }
 
-// callOrder: callees first, in the order of cfg.Funcs; recursion is unsupported.  Also
-// decides which functions take a fuel argument (a for-loop, or a call of such a function).
+// callOrder: callees first, in the order of cfg.Funcs.  A function may call itself (it then
+// becomes a Fixpoint on fuel); mutual recursion is unsupported.  Also decides which
+// functions take a fuel argument (a for-loop, a call of itself, or a call of such a function).
 func (t *translator) callOrder() {
 	state := map[string]int{}
 	var visit func(name string, from ast.Node)
 	visit = func(name string, from ast.Node) {
 		switch state[name] {
 		case 1:
-			t.fail(from, "recursive call of %s", name)
+			t.fail(from, "mutually recursive call of %s", name)
 		case 2:
 			return
 		}
 		state[name] = 1
 		fd := t.decls[name]
-		ast.Inspect(fd.Body, func(n ast.Node) bool {
+		var loops []ast.Node
+		var walk func(n ast.Node) bool
+		walk = func(n ast.Node) bool {
 			switch n := n.(type) {
 			case *ast.ForStmt:
 				t.needFuel[name] = true
+				loops = append(loops, n)
+				ast.Inspect(n.Body, walk)
+				if n.Init != nil {
+					ast.Inspect(n.Init, walk)
+				}
+				if n.Cond != nil {
+					ast.Inspect(n.Cond, walk)
+				}
+				if n.Post != nil {
+					ast.Inspect(n.Post, walk)
+				}
+				loops = loops[:len(loops)-1]
+				return false
+			case *ast.RangeStmt:
+				ast.Inspect(n.X, walk)
+				loops = append(loops, n)
+				ast.Inspect(n.Body, walk)
+				loops = loops[:len(loops)-1]
+				return false
 			case *ast.CallExpr:
 				if c := t.callee(n); c != "" {
 					if !inSet(t.cfg.Funcs, c) {
 						t.fail(n, "call of %s, which is not among the translated functions", c)
+					}
+					if c == name {
+						if len(loops) > 0 {
+							t.fail(n, "recursive call of %s inside a loop", name)
+						}
+						t.recursive[name] = true
+						t.needFuel[name] = true
+						return true
 					}
 					visit(c, n)
 					if t.needFuel[c] {
@@ -282,7 +329,8 @@ func (t *translator) callOrder() {
 				}
 			}
 			return true
-		})
+		}
+		ast.Inspect(fd.Body, walk)
 		state[name] = 2
 		t.order = append(t.order, name)
 	}
@@ -307,6 +355,8 @@ const (
 	kPtrStruct
 	kSlice
 	kTuple
+	kRune
+	kMap
 )
 
 func (t *translator) structOf(T types.Type) (Struct, *types.Struct, bool) {
@@ -349,6 +399,8 @@ func (t *translator) kindOf(T types.Type) kind {
 			return kInt
 		case types.Uint8:
 			return kByte
+		case types.Int32, types.UntypedRune:
+			return kRune
 		case types.Bool, types.UntypedBool:
 			return kBool
 		case types.String, types.UntypedString:
@@ -365,6 +417,14 @@ func (t *translator) kindOf(T types.Type) kind {
 		if _, _, ok := t.structOf(u.Elem()); ok {
 			return kPtrStruct
 		}
+	case *types.Map:
+		// a map with string keys whose values have a zero value here; only read (see expr)
+		if t.kindOf(u.Key()) == kString {
+			switch t.kindOf(u.Elem()) {
+			case kInt, kByte, kBool, kString, kBytes, kRune, kSlice:
+				return kMap
+			}
+		}
 	case *types.Tuple:
 		return kTuple
 	}
@@ -373,8 +433,10 @@ func (t *translator) kindOf(T types.Type) kind {
 
 func (t *translator) coqType(n ast.Node, T types.Type) string {
 	switch t.kindOf(T) {
-	case kInt:
+	case kInt, kRune:
 		return "Z"
+	case kMap:
+		return "(bytes -> " + t.coqType(n, types.Unalias(T).Underlying().(*types.Map).Elem()) + ")"
 	case kByte:
 		return "byte"
 	case kBool, kError:
@@ -409,8 +471,11 @@ func (t *translator) coqType(n ast.Node, T types.Type) string {
 
 func (t *translator) zero(n ast.Node, T types.Type) string {
 	switch t.kindOf(T) {
-	case kInt:
+	case kInt, kRune:
 		return "0%Z"
+	case kMap:
+		// a nil map reads as the zero value everywhere
+		return "(fun _ => " + t.zero(n, types.Unalias(T).Underlying().(*types.Map).Elem()) + ")"
 	case kByte:
 		return "x00"
 	case kBool, kError:
@@ -447,7 +512,7 @@ func coqZ(v string) string {
 // constant value of type T as a Coq literal
 func (t *translator) constLit(n ast.Node, v constant.Value, T types.Type) string {
 	switch t.kindOf(T) {
-	case kInt:
+	case kInt, kRune:
 		if i := constant.ToInt(v); i.Kind() == constant.Int {
 			return coqZ(i.ExactString())
 		}
@@ -476,6 +541,11 @@ func (t *translator) constLit(n ast.Node, v constant.Value, T types.Type) string
 func (t *translator) pkgVar(id *ast.Ident, obj *types.Var) string {
 	if name, ok := t.pkgVars[obj]; ok {
 		return name
+	}
+	if term, ok := t.cfg.Vars[obj.Name()]; ok {
+		// the table gives the value; the translated functions never assign it (rootVar)
+		t.pkgVars[obj] = term
+		return term
 	}
 	// referenced only inside translated functions (so that nothing else can store to it
 	// or through it), never assigned
@@ -662,6 +732,13 @@ func (t *translator) function(fd *ast.FuncDecl) string {
 	var out strings.Builder
 	for _, l := range ft.loops {
 		out.WriteString(l)
+	}
+	if t.recursive[ft.name] {
+		// the function calls itself: fuel bounds the depth of the recursion; inside the body
+		// the name fuel is the predecessor
+		fmt.Fprintf(&out, "(* func %s (recursive) *)\nFixpoint %s%s %s {struct fuel}\n  : res %s :=\n  match fuel with\n  | O => OutOfFuel\n  | S fuel =>\n%s\n  end.\n\n",
+			ft.name, t.cfg.Prefix, ft.name, strings.Join(params, " "), ft.resultType(), strings.TrimRight(b.String(), "\n"))
+		return out.String()
 	}
 	fmt.Fprintf(&out, "(* func %s *)\nDefinition %s%s %s\n  : res %s :=\n%s.\n\n", ft.name, t.cfg.Prefix, ft.name,
 		strings.Join(params, " "), ft.resultType(), strings.TrimRight(b.String(), "\n"))
